@@ -586,15 +586,10 @@ def _string_loops(w, reader_fn):
     return outer[0], (inner[0] if len(inner) == 1 else None)
 
 
-def _put_calls(w, lp):
-    """calls, inside one loop frame, of element 1 of the (init, put, return) triple the reader was given"""
-    out = []
-    for e in w.events:
-        if e[0] == "call" and e[6] is not None and _rat(e[6]) and e[7].equals(lp.frame):
-            p = C.fn_parts(e[6])
-            if p is not None and p[0] == "idx" and _rat(p[1][1]) and p[1][1].equals(F.const(1)):
-                out.append(e)
-    return out
+def _stores_in(w, lp):
+    """the calls, inside one loop, that are handed the matrix under construction"""
+    _ini, stores, _fin = _matrix_calls(w)
+    return [e for e in stores if e[7].equals(lp.frame)]
 
 
 def _header_field(v, anywhere=False):
@@ -636,43 +631,51 @@ def _words_in(values):
     return out
 
 
+def _lines_divisor(tot, L):
+    """lines of one block = 2 + (L - 1) // p  (header line + ceil(L / p) data lines)  ->  p"""
+    if tot is None or not _rat(L):
+        return None
+    p = C.fn_parts(tot - 2)
+    if p is not None and p[0] == "floordiv" and len(p[1]) == 2 and _rat(p[1][0]) and _rat(p[1][1]) and C.same(p[1][0], L - 1, whole_values=False):
+        return p[1][1]
+    return None
+
+
 def r3_sibling_decoders(ctx):
     """the string-header arithmetic is the same function of the header words in the ASCII reader, the binary reader and the skipper, and the
     data read for a string is what its header announces"""
-    res = {}
-    for loader, reader, kind in (("_loadop4_ascii", "_rd_nonbigmat_ascii", "nonbigmat"), ("_loadop4_binary", "_rd_nonbigmat_binary", "nonbigmat"),
-                                 ("_loadop4_ascii", "_rd_bigmat_ascii", "bigmat"), ("_loadop4_binary", "_rd_bigmat_binary", "bigmat")):
-        rf = ctx.src.func(OP4, "OP4." + reader)
-        w, call = _loader_with(ctx, loader, reader)
-        if w is None:
-            continue
-        col, lp = _string_loops(w, rf)
-        if lp is None:
-            ctx.error(f"{reader}: {kind} string loop", rf)
-            continue
-        bound = w.bound.get(id(rf), {})
-        params = [a.arg for a in rf.args.args][1:]
-        binary = "binary" in reader
-        wper = _role(bound, rf, "binary" if binary else "ascii", "wper")
-        P, dec = _counter(lp)
-        puts = _put_calls(w, lp)
-        if P is None or len(puts) != 1 or not _rat(wper):
-            ctx.error(f"{reader}: words-left counter / store call of the string loop", lp.node, {"counter": repr(P), "stores": len(puts)})
-            continue
-        # arguments of the store call by the signature of the store functions: (X, r, c, s, L, numlen) / (X, r, c, Y)
-        pf = ctx.src.func(OP4, "OP4._put_binary_values" if binary else "OP4._put_ascii_values")
-        pa = place(puts[0][2], puts[0][3], [a.arg for a in pf.args.args])
-        pnames = [a.arg for a in pf.args.args]
-        r = pa.get(pnames[1]) if len(pnames) > 1 else None
-        if binary:
-            sites = [c for c in w.cutovers if c["frame"].equals(lp.frame)]
-            L = sites[0]["count_ff"] if len(sites) == 1 else None
-        else:
-            L = pa.get(pnames[4]) if len(pnames) > 4 else None
-        res[reader] = dict(w=w, lp=lp, P=P, dec=dec, r=r, L=L, wper=wper, kind=kind, binary=binary, perline=None if binary else _role(bound, rf, "ascii", "perline"), put=puts[0], bound=bound,
-                           params=params)
-    for reader, d in res.items():
-        lp, dec, r, L, wper = d["lp"], d["dec"], d["r"], d["L"], d["wper"]
+    res = []
+    dense = []
+    for loader, binary in (("_loadop4_ascii", False), ("_loadop4_binary", True)):
+        for rd in _readers(ctx, loader):
+            if rd["layout"] == "dense":
+                dense.append((loader, binary, rd))
+                continue
+            reader, rf, w, kind = rd["name"], rd["fn"], rd["w"], rd["layout"]
+            col, lp = _string_loops(w, rf)
+            if lp is None:
+                ctx.error(f"{reader}: {kind} string loop", rf)
+                continue
+            P, dec = _counter(lp)
+            puts = _stores_in(w, lp)
+            if P is None or len(puts) != 1:
+                ctx.error(f"{reader}: words-left counter / store call of the string loop", lp.node, {"counter": repr(P), "stores": len(puts)})
+                continue
+            r = _store_arg(ctx, w, puts[0], "row")
+            if binary:
+                sites = [c for c in w.cutovers if c["fr"] is lp.fr]
+                L = sites[0]["count_ff"] if len(sites) == 1 else None
+            else:
+                L = _store_arg(ctx, w, puts[0], "count")
+            wper = _divisor(L)
+            if wper is None:
+                ctx.error(f"{reader}: the number of values of a string is not (words announced) // (words per value)", lp.node, repr(L))
+                continue
+            res.append(dict(w=w, lp=lp, P=P, dec=dec, r=r, L=L, wper=wper, kind=kind, binary=binary, put=puts[0], reader=reader,
+                            label=f"op4 {'binary' if binary else 'ascii'} {kind}"))
+    perlines = []
+    for d in res:
+        lp, dec, r, L, wper, reader = d["lp"], d["dec"], d["r"], d["L"], d["wper"], d["reader"]
         if d["kind"] == "nonbigmat":
             # the packed header word: what the string loop decodes first (the first read / the first line of its body)
             W = None
@@ -692,7 +695,7 @@ def r3_sibling_decoders(ctx):
             ok = _rat(r) and C.same(r, lo - 1)
             ctx.check(ok, f"{reader}: first row = (low 16 bits of IS) - 1, for every row up to 65535", lp.node,
                       None if ok else f"{r!r} (the ASCII and binary decoders must place the same string at the same row)",
-                      key=f"C11-R3|OP4.{reader}|first row")
+                      key=f"C11-R3|{d['label']}|first row")
         else:
             # the header of a bigmat string is the pair (L_header, row): fields 0 and 1 of the read / line that starts the loop body
             f0 = _header_field(dec - 1) if _rat(dec) else None
@@ -700,7 +703,7 @@ def r3_sibling_decoders(ctx):
             ok = f0 is not None and f0[1] == 0
             ctx.check(ok, f"{reader}: bigmat words consumed per string = L_header + 1, L_header being the first header field", lp.node,
                       None if ok else {"words": repr(dec)})
-            ok = f1 is not None and f1[1] == 1 and f0 is not None and f0[0] == f1[0] and repr(f0[2]) == repr(f1[2])
+            ok = f1 is not None and f1[1] == 1 and f0 is not None and f0[0] == f1[0] and C.same(f0[2], f1[2])
             ctx.check(ok, f"{reader}: bigmat first row = header row - 1, the row being the second field of the same header", lp.node,
                       None if ok else {"row": repr(r)})
             if f0 is None:
@@ -723,73 +726,77 @@ def r3_sibling_decoders(ctx):
                             "precisions and key widths", lp.node, detail)
         else:
             tot = C.total(lp.items, "L")
-            pl = d["perline"]
-            ok = tot is not None and _rat(L) and _rat(pl) and C.same(tot, 2 + C.floordiv(L - 1, pl), whole_values=False)
+            pl = _lines_divisor(tot, L)
+            ok = pl is not None
             ctx.check(ok, f"{reader}: a string is one header line plus ceil(L / perline) data lines for the L values it stores", lp.node,
                       None if ok else {"lines": repr(tot), "values": repr(L)})
+            if pl is not None:
+                perlines.append(pl)
     # dense columns: the column header carries the (1-based) row of the first value
-    for loader, reader in (("_loadop4_ascii", "_rd_dense_ascii"), ("_loadop4_binary", "_rd_dense_binary")):
-        rf = ctx.src.func(OP4, "OP4." + reader)
-        w, _call = _loader_with(ctx, loader, reader)
-        if w is None:
-            continue
+    for loader, binary, rd in dense:
+        reader, rf, w = rd["name"], rd["fn"], rd["w"]
         cols_ = C.loops_of_call(w, rf)
-        puts = _put_calls(w, cols_[0]) if len(cols_) == 1 else []
+        puts = _stores_in(w, cols_[0]) if len(cols_) == 1 else []
         if len(puts) != 1:
             ctx.error(f"{reader}: store call of the column loop", rf)
             continue
         col = cols_[0]
-        pf = ctx.src.func(OP4, "OP4._put_binary_values" if "binary" in reader else "OP4._put_ascii_values")
-        pnames = [a.arg for a in pf.args.args]
-        pa = place(puts[0][2], puts[0][3], pnames)
-        r = pa.get(pnames[1]) if len(pnames) > 1 else None
+        r = _store_arg(ctx, w, puts[0], "row")
         ok, detail = _rat(r), None
         if ok:
-            P = r + 1
-            upd = [v for q, v in col.carry if q.equals(P)]
-            pp = C.fn_parts(P)
-            ent = pp[1][1] if pp is not None and pp[0] == "lv" and len(pp[1]) >= 2 and _rat(pp[1][1]) else None
-            h1 = _header_field(upd[0], anywhere=True) if len(upd) == 1 and _rat(upd[0]) else None
-            h0 = _header_field(ent, anywhere=True) if ent is not None else None
-            ok = h1 is not None and h0 is not None and h1[1] == 1 and h0[1] == 1 and h1[0] == h0[0] and h1[0] in ("word", "field")
+            # r = (a loop-carried row field) - 1: on entry the field of the head the loader read, afterwards that of the head just read
+            ps = _lv_in(r, col.frame)
+            ok = len(ps) == 1 and C.same(r, ps[0] - 1)
+            if ok:
+                P = ps[0]
+                upd = [v for q, v in col.carry if q.equals(P)]
+                pp = C.fn_parts(P)
+                ent = pp[1][1] if pp is not None and pp[0] == "lv" and len(pp[1]) >= 2 and _rat(pp[1][1]) else None
+                h1 = _header_field(upd[0], anywhere=True) if len(upd) == 1 and _rat(upd[0]) else None
+                h0 = _header_field(ent, anywhere=True) if ent is not None else None
+                ok = h1 is not None and h0 is not None and h1[1] == 1 and h0[1] == 1 and h1[0] == h0[0] and h1[0] in ("word", "field")
             if not ok:
                 detail = {"first row": repr(r)}
         ctx.check(ok, f"{reader}: the first row of a dense column = (row field of its column header) - 1", puts[0][5], detail)
+        if not binary:
+            L = _store_arg(ctx, w, puts[0], "count")
+            pl = _lines_divisor(C.total(col.items, "L"), L)       # the block and the next column header
+            if pl is not None:
+                perlines.append(pl)
     # words per value of the ASCII loader: 1 for the odd (single precision) matrix types, 2 otherwise
-    rd_ = res.get("_rd_nonbigmat_ascii") or res.get("_rd_bigmat_ascii")
-    if rd_ is not None:
-        wl = rd_["w"]
-        full = [r for r in wl.returns if isinstance(r[0], tuple) and len(r[0]) == 4 and not all(_rat(x) and C.sym_name(x) == "None" for x in r[0])]
-        mtype = full[-1][0][3] if full else None
-        ok = _rat(mtype) and C.same(rd_["wper"], C.phi(F.fn("odd", mtype), F.const(1), F.const(2)))
+    arow = [d for d in res if not d["binary"]]
+    if arow:
+        wl = arow[0]["w"]
+        mtype = _reported_type(wl)
+        ok = _rat(mtype) and all(C.same(d["wper"], C.phi(F.fn("odd", mtype), F.const(1), F.const(2))) for d in arow)
         ctx.check(ok, "_loadop4_ascii: a value takes 1 word for the odd matrix types (single precision) and 2 words otherwise, the type being the "
-                      "one reported for the matrix", wl.fn, None if ok else repr(rd_["wper"]))
-    # words per value: the ASCII skipper and the ASCII loader derive it from the matrix type identically
-    sk = _w4(ctx, "_skipop4_ascii")
-    la, call = _loader_with(ctx, "_loadop4_ascii", "_rd_nonbigmat_ascii")
-    if sk is not None and la is not None:
-        skf = ctx.src.func(OP4, "OP4._skipop4_ascii")
-        mt = None
-        a = _skip_args(la, skf)
-        if a is not None:
-            mt = _role(a, skf, "skip_ascii", "mtype")
-        rd = res.get("_rd_nonbigmat_ascii")
-        want = None
-        if _rat(mt) and rd is not None:
-            want = C.renamer([(mt, F.sym(_role_name(skf, "skip_ascii", "mtype") or "?"))])(rd["wper"])
-        # the skipper's own words-per-value: the divisor of its string length
-        got = None
-        for lp in C.loops_in(sk.top.items):
-            P, dec = _counter(lp)
-            if P is not None and _rat(dec) and _words_in([dec]):
+                      "one reported for the matrix", wl.fn, None if ok else repr(arow[0]["wper"]))
+    # words per value: the ASCII skipper and the ASCII loader derive it from the matrix type identically (the skipper walked in the case
+    # that takes its nonbigmat path, with its parameters standing for what the loader passes)
+    cs = _ascii_cases(ctx)
+    nb = [d for d in arow if d["kind"] == "nonbigmat"]
+    if cs["ok"] and nb:
+        got = False
+        want = cs["ren_l"](nb[0]["wper"])
+        for _asg, _wl, ws in cs["cases"]:
+            for lp in C.loops_in(ws.top.items):
+                P, dec = _counter(lp)
+                if P is None or not _rat(dec) or not _words_in([dec]):
+                    continue
                 W = _words_in([dec])[0]
                 tot = C.total(lp.items, "L")
-                for cand in ([want] if want is not None else []):
-                    if tot is not None and C.same(tot, 2 + C.floordiv(C.floordiv(F.fn("hi16", W) - 1, cand) - 1, F.sym(_role_name(skf, "skip_ascii", "perline") or "?")), whole_values=False):
-                        got = cand
-        ok = want is not None and got is not None
-        ctx.check(ok, "ASCII skipper and loader derive words-per-value from the matrix type identically", skf,
-                  None if ok else {"loader": repr(want)})
+                if tot is None:
+                    continue
+                tot = cs["ren_s"](tot)
+                pl = _lines_divisor(tot, C.floordiv(F.fn("hi16", cs["ren_s"](W)) - 1, want))
+                got = got or pl is not None
+        ctx.check(got, "ASCII skipper and loader derive words-per-value from the matrix type identically", cs["skf"],
+                  None if got else {"loader": repr(want)})
+    # one values-per-line for every ASCII reader
+    ok = len(perlines) >= 3 and all(C.same(perlines[0], x, whole_values=False) for x in perlines[1:])
+    ctx.check(ok, "the three ASCII readers split their blocks by the same values-per-line", ctx.src.func(OP4, "OP4._loadop4_ascii"),
+              None if ok else [repr(x)[:120] for x in perlines])
+    ctx.__dict__["_c11_perline"] = perlines[0] if perlines else None
     # sentinel: every reader evaluated
     ctx.check(len(res) == 4, f"sibling rule bound to {len(res)} string readers", OP4 + ":1", nontrivial=False)
 
@@ -1180,12 +1187,11 @@ def _guard_equiv(guard, want):
 
 def r5_listing_equals_read(ctx):
     normalisers = {}
-    for loader, reader, skipper in (("_loadop4_ascii", "_rd_dense_ascii", "self._skipop4_ascii"), ("_loadop4_binary", "_rd_dense_binary", "self._skipop4_binary")):
-        rf = ctx.src.func(OP4, "OP4." + reader)
-        kindr = "ascii" if "ascii" in reader else "binary"
-        w, call = _loader_with(ctx, loader, reader)
-        if w is None:
+    for loader, skipper in (("_loadop4_ascii", "self._skipop4_ascii"), ("_loadop4_binary", "self._skipop4_binary")):
+        rds = _readers(ctx, loader)
+        if not rds:
             continue
+        w = rds[0]["w"]
         fn = w.fn
         params = {a.arg for a in fn.args.args}
         rets = [r for r in w.returns if isinstance(r[0], tuple) and len(r[0]) == 4]
@@ -1199,36 +1205,22 @@ def r5_listing_equals_read(ctx):
         want_l = C.atom(lonly)
         lst = [r for r in real if _guard_equiv(_loop_guard(r[1]), want_l) is True]
         full = [r for r in real if not any(r is x for x in lst)]
-        bound = w.bound.get(id(rf), {})
         ok = len(lst) == 1 and len(full) == 1
-        if ok:
-            size = lst[0][0][1]
-            # the shape the full read allocates: init(rows, cols), element 0 of the (init, put, return) triple, called by the reader
-            inits = [e for e in w.events if e[0] == "call" and e[6] is not None and _rat(e[6]) and (C.fn_parts(e[6]) or ("",))[0] == "idx"
-                     and C.fn_parts(e[6])[1][1].is_zero() and len(e[2]) == 2]
-            shape = (inits[0][2][0], inits[0][2][1]) if len(inits) == 1 else (_role(bound, rf, kindr, "rows"), _role(bound, rf, kindr, "cols"))
-            ok = isinstance(size, tuple) and len(size) == 2 and C.same(size[0], shape[0]) and C.same(size[1], shape[1])
-        ctx.check(ok, f"{loader}: a listing returns (name, (abs(rows), cols), form, mtype) with the very sizes a full read gives its reader", fn,
+        size = lst[0][0][1] if len(lst) == 1 else None
+        ok = ok and isinstance(size, tuple) and len(size) == 2
+        ctx.check(ok, f"{loader}: a listing returns (name, (rows, cols), form, mtype); a full read (name, matrix, form, mtype)", fn,
                   None if ok else {"listing returns": len(lst), "full returns": len(full)})
         ok = len(lst) == 1 and len(full) == 1 and all(C.same(lst[0][0][i], full[0][0][i]) for i in (0, 2, 3))
         ctx.check(ok, f"{loader}: a full read returns (name, X, form, mtype) with the same name / form / type values as the listing", fn)
-        if len(lst) == 1 and isinstance(lst[0][0][1], tuple) and len(lst[0][0][1]) == 2:
-            size = lst[0][0][1]
-            for other in (("_rd_dense_ascii", "_rd_bigmat_ascii", "_rd_nonbigmat_ascii") if kindr == "ascii"
-                          else ("_rd_dense_binary", "_rd_bigmat_binary", "_rd_nonbigmat_binary")):
-                w2, _c2 = _loader_with(ctx, loader, other)
-                if w2 is None:
+        if isinstance(size, tuple) and len(size) == 2:
+            for rd in rds:
+                ini, _stores, fin = _matrix_calls(rd["w"])
+                if ini is None or fin is None or len(ini[2]) != 2 or len(fin[2]) < 2:
+                    ctx.error(f"{rd['name']}: allocation / return of the matrix through the functions the reader is handed", rd["fn"])
                     continue
-                def triple(k, nargs):
-                    return [e for e in w2.events if e[0] == "call" and e[6] is not None and _rat(e[6]) and (C.fn_parts(e[6]) or ("",))[0] == "idx"
-                            and C.fn_parts(e[6])[1][1].equals(F.const(k)) and len(e[2]) == nargs]
-                ini, fin = triple(0, 2), triple(2, 3)
-                if len(ini) != 1 or len(fin) != 1:
-                    ctx.error(f"{other}: allocation / return through the (init, put, return) triple", ctx.src.func(OP4, "OP4." + other))
-                    continue
-                ok = all(C.same(size[i], ini[0][2][i]) and C.same(size[i], fin[0][2][i]) for i in (0, 1))
-                ctx.check(ok, f"{other}: the matrix is allocated and returned with the (rows, cols) a listing reports", ini[0][5],
-                          None if ok else {"listing": [repr(x) for x in size], "init": [repr(x) for x in ini[0][2]], "return": [repr(x) for x in fin[0][2][:2]]})
+                ok = all(C.same(size[i], ini[2][i]) and C.same(size[i], fin[2][i]) for i in (0, 1))
+                ctx.check(ok, f"{rd['name']}: the matrix is allocated and returned with the (rows, cols) a listing reports", ini[5],
+                          None if ok else {"listing": [repr(x)[:200] for x in size], "init": [repr(x)[:200] for x in ini[2]], "return": [repr(x)[:200] for x in fin[2][:2]]})
         name = lst[0][0][0] if len(lst) == 1 else None
         skips = [e for e in w.events if e[0] == "call" and e[1] == skipper]
         ok = len(skips) >= 1 and _rat(name)
@@ -1249,29 +1241,37 @@ def r5_listing_equals_read(ctx):
     ctx.check(ok, "both loaders normalise the matrix name with the same method before filtering (same names in listings, filters and reads of "
                   "ASCII and binary files)", ctx.src.func(OP4, "OP4._loadop4_ascii"), None if ok else normalisers)
     for q in ("dctload", "listload", "dir"):
-        w = _w4(ctx, q, follow=False)
+        w = _w4(ctx, q, tag="nofile", follow=_no_file_helpers(ctx, OP4, "OP4"))
         if w is None:
             continue
         want = C.phi(F.sym("self._ascii"), F.sym("self._loadop4_ascii"), F.sym("self._loadop4_binary"))
         calls = [e for e in w.events if e[0] == "call" and e[6] is not None and _rat(e[6]) and C.same(e[6], want)]
         lps = C.loops_in(w.top.items)
-        ok = len(calls) == 1
+        ok = 1 <= len(calls) <= 2 and len(lps) == 1
         if ok:
-            e = calls[0]
-            # the loop ends exactly when the loader reports no name
-            inloop = [lp for lp in lps if e[7].equals(lp.frame)]
-            ok = len(inloop) == 1
+            lp = lps[0]
+            inloop = [e for e in calls if e[7].equals(lp.frame)]
+            before = [e for e in calls if e[7].equals(w.top.id)]
+            ok = len(inloop) == 1 and len(before) == len(calls) - 1
             if ok:
-                lp = inloop[0]
-                brk = _break_guards(lp)
-                res = e[8]
-                nm = F.fn("idx", res, F.const(0)) if _rat(res) else None
-                ok = len(brk) == 1 and nm is not None and _guard_equiv(brk[0], ("not", C.atom(nm))) is True and C.same(lp.test, F.const(1))
+                e = inloop[0]
+                # the loop goes on exactly while the name reported by the latest call of the loader is not empty / None
+                nm = F.fn("idx", e[8], F.const(0)) if _rat(e[8]) else None
+                ps = _lv_in(lp.test, lp.frame)
+                upd = [v for p_, v in lp.carry if len(ps) == 1 and p_.equals(ps[0])]
+                ok = nm is not None and len(ps) == 1 and C.same(lp.test, ps[0]) and len(upd) == 1 and C.same(upd[0], nm)
+                if ok and before:
+                    # a loop tested at its top: the first call is made before it, with the same arguments
+                    b = before[0]
+                    ok = _rat(b[8]) and C.same(lp.entry_test(), F.fn("idx", b[8], F.const(0))) and len(b[2]) == len(e[2]) \
+                        and all(C.same(x, y) for x, y in zip(b[2], e[2])) and set(b[3]) == set(e[3]) and all(C.same(b[3][k], e[3][k]) for k in e[3])
+                elif ok:
+                    ok = lp.forced
             if ok and q == "dir":
-                ok = _rat(e[3].get("listonly")) and (C.sym_name(e[3]["listonly"]) == "True" or e[3]["listonly"].equals(F.const(1)))
+                ok = all(_rat(e[3].get("listonly")) and (C.sym_name(e[3]["listonly"]) == "True" or e[3]["listonly"].equals(F.const(1))) for e in calls)
         ctx.check(ok, f"{q}: iterates the same loader (ascii or binary by the detected format) until it reports end of file", w.fn)
     # ---- op2 directory vs rdop2matrix sizes
-    d = _w2(ctx, "directory", follow=False)
+    d = _w2(ctx, "directory", tag="nofile", follow=_no_file_helpers(ctx, OP2, "OP2"))
     mt = _w2(ctx, "rdop2matrix")
     if mt is not None:
         buf = None
@@ -1306,19 +1306,43 @@ def r5_listing_equals_read(ctx):
                     got.add((repr(C.norm(v[0])), repr(C.norm(v[1]))))
                 ok = (repr(C.norm(want[0])), repr(C.norm(want[1]))) in got
         ctx.check(ok, "directory reports matrix sizes from trailer[2] x trailer[1] of the trailer it stores, the fields rdop2matrix allocates from", d.fn)
-        rmw = _w2(ctx, "_rdmat", follow=False)
-        if rmw is not None:
-            calls = [e for e in rmw.events if e[0] == "call" and e[1] in ("self.set_position", "self.rdop2nt", "self.rdop2matrix")]
-            sn = F.sym(rmw.fn.args.args[1].arg)
-            nm = C.sym_name(sn)
-            ok = [e[1] for e in calls] == ["self.set_position", "self.rdop2nt", "self.rdop2matrix"] \
-                and len(calls[0][2]) >= 1 and C.same(calls[0][2][0], F.fn("attr:start", sn)) and len(calls[2][2]) == 1
+    # a positioned read (rdop2mats): seek to the start the directory recorded, re-read name and trailer, decode with the trailer of that block
+    rm = _w2(ctx, "rdop2mats", tag="nofile", follow=_no_file_helpers(ctx, OP2, "OP2", keep=("self.set_position", "self.rdop2nt", "self.rdop2matrix")))
+    if rm is not None:
+        calls = [e for e in rm.events if e[0] == "call" and e[1] in ("self.set_position", "self.rdop2nt", "self.rdop2matrix")]
+        reads = [i for i, e in enumerate(calls) if e[1] == "self.rdop2matrix"]
+        ok = bool(reads)
+        for i in reads:
+            ok = ok and i >= 2 and calls[i - 1][1] == "self.rdop2nt" and calls[i - 2][1] == "self.set_position" and len(calls[i][2]) == 1 \
+                and len(calls[i - 2][2]) >= 1
+            if not ok:
+                break
+            pos, tr = calls[i - 2][2][0], calls[i][2][0]
+            pp = C.fn_parts(pos) if _rat(pos) else None
+            ok = pp is not None and pp[0] == "attr:start" and _rat(pp[1][0])
             if ok:
+                sn = pp[1][0]
                 # the trailer the matrix is decoded with: the one the directory stored, or the one just re-read by rdop2nt (the same record)
-                tr = calls[2][2][0]
-                ok = C.same(tr, F.fn("attr:trailer", sn)) or (_rat(calls[1][8]) and C.same(tr, F.fn("idx", calls[1][8], F.const(1))))
-            ctx.check(ok, "_rdmat: a positioned read seeks to the start recorded by the directory scan, re-reads name and trailer, and decodes with the "
-                          "trailer of that data block", rmw.fn)
+                ok = C.same(tr, F.fn("attr:trailer", sn)) or (_rat(calls[i - 1][8]) and C.same(tr, F.fn("idx", calls[i - 1][8], F.const(1))))
+        ctx.check(ok, "rdop2mats: a positioned read seeks to the start recorded by the directory scan, re-reads name and trailer, and decodes with the "
+                      "trailer of that data block", rm.fn)
+
+
+def _no_file_helpers(ctx, rel, cls, keep=()):
+    """follow policy for the functions that organise reads (listing, directory, positioned reads): private helpers of the class are entered, the
+    readers they call (everything public, and whatever touches the file) stay calls"""
+    def follow(name, f):
+        if name in keep:
+            return False
+        short = name.split(".")[-1]
+        if not short.startswith("_") or short.startswith("__"):
+            return False
+        # (a private helper that itself reads the file is a reader)
+        for n in ast.walk(f):
+            if isinstance(n, ast.Call) and isinstance(n.func, ast.Attribute) and n.func.attr in ("read", "readline", "fromfile", "unpack"):
+                return False
+        return True
+    return follow
 
 
 def _loop_guard(guard, syms=("listonly", "patternlist")):
